@@ -212,6 +212,18 @@ def analyse_path(path, fn_name=None, extra_alloc=(), carried=()):
             continue
         if sym.object_of(addr)[0] == 'alloca':
             continue          # a member of a local record: it dies with the function
+        # a slot of a global stack that the path has popped (its counter was stored back decremented): dead storage
+        r0 = sym.root_of(addr)
+        if r0[0] == 'g' and addr[0] in ('fld', 'idx'):
+            cnts = set()
+            sym.mentions(addr, lambda x: cnts.add(x[1]) or False if (x[0] == 'ld' and x[1][0] == 'g') else False)
+            popped = False
+            for e2 in path.events:
+                if e2.kind == 'store' and e2.addr in cnts and e2.val[0] == 'bin' and e2.val[1] == 'add' and sym.is_const(e2.val[3]) and e2.val[3][1] < 0 \
+                        and e2.val[2][0] == 'ld' and e2.val[2][1] == e2.addr:
+                    popped = True
+            if popped:
+                continue
         overwritten = False
         naddr = sym.norm(addr)
         for e2 in path.events:
